@@ -745,6 +745,173 @@ def _site_runner(i):
 
 
 # =====================================================================================
+# relationship TYPE tests: which relationships of a source part are taken for pictures (round 6)
+# =====================================================================================
+# A relationship part lists relationships of every kind (a worksheet: drawing, vmlDrawing of the comment boxes, comments, hyperlinks,
+# printer settings ...).  The guard that picks the relationships of one kind is sliced out of the real function as a function of the
+# relationship type alone and executed by the engine on EVERY standard relationship type of that source part (c14_reltypes: ECMA-376
+# tables, Transitional + Strict namespace, Microsoft extension types): it must separate the wanted kind from all the others
+# (`exact`), or -- where a later lookup by relationship id does the final selection -- accept the wanted kind and tell it from others.
+TYPE_SITES = [
+    dict(rel=XLSX, fn="_extract_images_from_zip", tests=(("worksheet", "drawing", True, "sheet-drawing"), ("drawing", "image", True, "drawing-image"))),
+    dict(rel=DOCX, fn="_extract_images_from_context", tests=(("document", "image", True, "document-image"),)),
+    dict(rel=PPTX, fn="_PptxContext._compute_slide_order", tests=(("presentation", "slide", False, "presentation-slide"),)),
+]
+
+
+def _type_tests(fn):
+    """[(conjunct, if-node, slice function)]: conditions of the function that depend on a relationship type and on nothing else."""
+    from contracts import c14_flow as F
+    out = []
+    ifs = sorted([n for n in ast.walk(fn) if isinstance(n, ast.If)], key=lambda n: (n.lineno, n.col_offset))
+    for node in ifs:
+        conj = node.test.values if isinstance(node.test, ast.BoolOp) and isinstance(node.test.op, ast.And) else [node.test]
+        for e in conj:
+            try:
+                f, sl = F.build_slice_function(fn, e, node, lambda x: F.is_lookup_of(x, ("type",)), name="__type_test")
+            except Exception:  # noqa
+                continue
+            if f is not None and set(sl.sources) == {"__target"}:
+                out.append((e, node, f))
+    return out
+
+
+def _eval_type_test(mod, reg, uni, f, uri):
+    """The sliced guard on one concrete relationship type -> True / False / None (not decided)."""
+    from pyvc import verify
+    from pyvc.verify import p_const
+    seen = []
+
+    def cap(c):
+        seen.append(c.result)
+        return z3.BoolVal(True)
+    c = FnContract(target=f"{mod.rel}::__type_test", params=[("__target", p_const(uri))], ensures=[("value", cap)], raises=[Raises("Exception", sub=True)])
+    ex = C14Executor(mod, reg, uni)
+    ex.contract = c
+    ex.oid_prefix = "slice"
+    try:
+        verify.generate(ex, c, mod, f)
+    except Exception:  # noqa
+        return None
+    vals = set()
+    for r in seen:
+        if isinstance(r, (VBool, VInt)):
+            t = z3.simplify(ops.int_term(r) != 0) if not isinstance(r, VBool) else z3.simplify(r.t)
+            vals.add(True if z3.is_true(t) else False if z3.is_false(t) else None)
+        elif isinstance(r, VStr) and r.const() is not None:
+            vals.add(bool(r.const()))
+        else:
+            vals.add(None)
+    return vals.pop() if len(vals) == 1 else None
+
+
+def rel_type_selection(repo, tier):
+    from pyvc.contracts import Registry
+    from pyvc.exctypes import Universe
+    from contracts import c14_reltypes as RT
+    obls, fns = [], []
+    try:
+        reg = Registry()
+        for c in contracts(reg):
+            reg.add(c)
+        uni = Universe(repo)
+    except Exception as e:  # noqa
+        return {"obligations": [], "functions": [], "undecided": [{"obligation": "C14/rel-type", "why": f"{type(e).__name__}: {e}"}]}
+    for site in TYPE_SITES:
+        rel, fname = site["rel"], site["fn"]
+        short = rel.split("/")[-1]
+        ids = [f"C14/{short}::{fname}/rel-type#{lab}-relationships-are-picked-by-kind" for (_p, _k, _x, lab) in site["tests"]]
+        try:
+            mod = loader.module(rel, repo)
+            rname = real_name(rel, fname, repo)
+            fn = mod.functions.get(rname)
+            if fn is not None:
+                fn, _inl = inline_helpers(mod, rname)
+            tests = _type_tests(fn) if fn is not None else []
+        except Exception as e:  # noqa
+            fn, tests = None, []
+        if fn is None or len(tests) != len(site["tests"]):
+            for oid in ids:
+                g = ground_obligation(oid, False, f"{len(tests)} conditions on a relationship type found, {len(site['tests'])} expected: shape not recognised",
+                                      rel, kind="rel-type", definite=False)
+                g["function"] = f"{rel}::{fname}"
+                obls.append(g)
+            continue
+        for (oid, (part, kind, exact, _lab), (e, node, f)) in zip(ids, site["tests"], tests):
+            res = {u: _eval_type_test(mod, reg, uni, f, u) for u in RT.types_of(part)}
+            und = [u for u, v in res.items() if v is None]
+            want = {u for u in res if RT.kind_of(u) == kind}
+            src = ast.unparse(e)[:80]
+            if und:
+                g = ground_obligation(oid, False, f"line {LN(node)}: `{src}` not decided for {RT.kind_of(und[0])} ({len(und)} types)", rel, kind="rel-type", definite=False)
+            else:
+                vw = {res[u] for u in want}
+                if len(vw) != 1:
+                    bad = sorted(u for u in want if res[u] != res[RT.TRANSITIONAL + kind])
+                    g = ground_obligation(oid, False, f"line {LN(node)}: `{src}` treats the {kind} relationship types differently: {bad[:2]}", rel, kind="rel-type")
+                else:
+                    v = vw.pop()
+                    wrong = [u for u in res if u not in want and res[u] == v]
+                    if exact:
+                        g = ground_obligation(oid, not wrong, "" if not wrong else
+                                              f"line {LN(node)}: `{src}` does not tell a {kind} relationship from {', '.join(RT.kind_of(u) for u in wrong[:4])} "
+                                              f"({wrong[0]}): a part that lists such a relationship next to its {kind} relationship loses or gains pictures",
+                                              rel, kind="rel-type")
+                    else:
+                        ok = len(wrong) < len(res) - len(want)
+                        g = ground_obligation(oid, ok, "" if ok else f"line {LN(node)}: `{src}` does not depend on the kind", rel, kind="rel-type")
+            g["function"] = f"{rel}::{fname}"
+            g["loc"] = f"{rel}:{LN(node)}"
+            g["vcs"] = len(res)
+            g["backends"] = {"symex-concrete": len(res)}
+            obls.append(g)
+        fns.append(dict(mod.fn_info(rname), obligations=len(site["tests"])))
+    return confirm_natively({"obligations": obls, "functions": fns}, repo)
+
+
+# =====================================================================================
+# ODF lengths -> pixels (width / height of every ODF picture), round 6: contracts/c14_length.py
+# =====================================================================================
+def odf_length(repo, tier):
+    from pyvc import verify
+    from pyvc.contracts import Registry
+    from pyvc.exctypes import Universe
+    from contracts import c14_length as L
+    qual = "_odf_length_to_px"
+    base = f"C14/data_types.py::{qual}"
+    oid = f"{base}/ensures#pixels-at-96-dpi-for-every-absolute-unit"
+    try:
+        mod = loader.module(DT, repo)
+        fn = mod.functions.get(qual)
+        if fn is None:
+            return {"obligations": [], "functions": [], "undecided": [{"obligation": f"{DT}::{qual}", "why": "contract-target-missing"}]}
+        reg = Registry()
+        for c in contracts(reg):
+            reg.add(c)
+        names = L.pattern_names(mod)
+        if not names:
+            g = ground_obligation(oid, False, "the module's length pattern is not the recognised `number [unit]` expression", DT, kind="ensures", definite=False)
+            g["function"] = f"{DT}::{qual}"
+            return confirm_natively({"obligations": [g], "functions": [dict(mod.fn_info(qual), obligations=1)]}, repo)
+        ex = type("LengthExecutorHere", (L.LengthExecutor,), {"PATTERNS": frozenset(names)})(mod, reg, Universe(repo))
+        c = FnContract(target=f"{DT}::{qual}", params=[("length", p_str())], ensures=[("pixels-at-96-dpi-for-every-absolute-unit", L.spec)], raises=[],
+                       note="CSS absolute lengths at 96 dpi; float rounding within 1/2 + 1e-9 relative")
+        ex.contract = c
+        ex.oid_prefix = base
+        got, _cov = verify.generate(ex, c, mod, fn)
+        obls = []
+        for k, ob in got.items():
+            d = verify.discharge(ob, None, getattr(ex, "witness_terms", {}))
+            d.update(function=f"{DT}::{qual}")
+            obls.append(d)
+        return confirm_natively({"obligations": obls, "functions": [dict(mod.fn_info(qual), obligations=len(obls))]}, repo)
+    except Exception as e:  # noqa  -- outside the subset: undecided, the native grid decides
+        g = ground_obligation(oid, False, f"not executable: {type(e).__name__}: {e}"[:300], DT, kind="ensures", definite=False)
+        g["function"] = f"{DT}::{qual}"
+        return confirm_natively({"obligations": [g], "functions": []}, repo)
+
+
+# =====================================================================================
 # (c) numbering, (d) bytes / content type / pixel size dataflow, order of traversal  (AST, back end `dataflow`)
 # =====================================================================================
 PDF = EX + "pdf/pdf_extractor.py"
@@ -1464,6 +1631,16 @@ def image_sites(repo, tier):
     return confirm_natively({"obligations": obls, "functions": fns, "undecided": und}, repo)
 
 
+def _cache_probe(e, par):
+    """`self._slide_rel...[par]` / `self._slide_rel....get(par)` (no default): a probe of the per-path cache under the given path"""
+    if isinstance(e, ast.Subscript) and isinstance(e.value, ast.Attribute) and e.value.attr.startswith("_slide_rel"):
+        return isinstance(e.slice, ast.Name) and e.slice.id == par
+    if isinstance(e, ast.Call) and isinstance(e.func, ast.Attribute) and e.func.attr == "get" and isinstance(e.func.value, ast.Attribute) \
+            and e.func.value.attr.startswith("_slide_rel") and "rels_root" not in e.func.value.attr and not e.keywords:
+        return len(e.args) == 1 and isinstance(e.args[0], ast.Name) and e.args[0].id == par
+    return False
+
+
 def _per_part_table(ck):
     """`get_slide_relationships(slide_path)`: the table returned is built in this call from the relationship root stored for the SAME
     path, and cached under the same path (relationship ids are scoped by the part that owns the .rels)."""
@@ -1477,7 +1654,12 @@ def _per_part_table(ck):
         v = r.value
         if isinstance(v, ast.Name):
             b = reaching(fn, ck.pm, v.id, r)
-            if b is None or b.kind != "assign" or not (isinstance(b.value, ast.Dict) and not b.value.keys):
+            if b is not None and b.kind == "assign" and _cache_probe(b.value, par):
+                continue    # `cached = self._slide_relationships.get(slide_path)`: the cached table of the same path
+            empty = b is not None and b.kind == "assign" and ((isinstance(b.value, ast.Dict) and not b.value.keys) or
+                                                              (isinstance(b.value, ast.Call) and isinstance(b.value.func, ast.Name) and b.value.func.id == "dict"
+                                                               and not b.value.args and not b.value.keywords))
+            if not empty:
                 bad.append(f"line {LN(r)}: the returned table {v.id} is not created empty in this call")
             else:
                 fresh.add(v.id)
@@ -1825,6 +2007,16 @@ def _install_views():
     E.OFIELDS[("TableData", "data")] = TABLE
 
 
+def _self_of(st):
+    """The iterator's own `self`: bound in the frame of the method under verification (the current frame may be the one of a generator
+    helper the method delegates to with `yield from`)."""
+    for f in st.frames:
+        v = f.env.get("self")
+        if isinstance(v, VExt):
+            return v.t
+    raise ops.Unsupported("no `self` in scope of the loop")
+
+
 def prefix_ext(t, j):
     """Sequence lemma used by the inner-loop invariants (proved once per element sort in lemmas())."""
     return z3.And(z3.Implies(z3.And(j >= 0, j < z3.Length(t)), z3.SubSeq(t, 0, j + 1) == z3.Concat(z3.SubSeq(t, 0, j), z3.Unit(t[j]))),
@@ -1896,7 +2088,7 @@ def _flat_images_contract(cls, icls):
         if t is None:
             return z3.BoolVal(False)
         lc.st.assume(prefix_ext(t, lc.i))
-        return z3.And(lc.st.ghost["YZ"]["img"] == z3.SubSeq(t, 0, lc.i), t == whole(lc.entry.lookup("self").t))
+        return z3.And(lc.st.ghost["YZ"]["img"] == z3.SubSeq(t, 0, lc.i), t == whole(_self_of(lc.entry)))
     tgt = f"{DT}::{cls}.iterate_images"
     C14Executor.VIEW[tgt] = "images"
     return FnContract(target=tgt, params=[("self", p_ext(cls))], generator=True, requires=req,
@@ -1925,7 +2117,7 @@ def _view_contracts(v: ViewSpec, images_only=False):
 
     # ---- iterate_images: the document view is the flattening ----
     def img_outer(lc):
-        me = lc.entry.lookup("self").t
+        me = _self_of(lc.entry)
         lc.st.assume(v.defn(me, lc.i))
         return Y(lc.st, "img") == v.FLATI(me, lc.i)
 
@@ -1949,7 +2141,7 @@ def _view_contracts(v: ViewSpec, images_only=False):
 
     # ---- iterate_tables ----
     def tab_outer(lc):
-        me = lc.entry.lookup("self").t
+        me = _self_of(lc.entry)
         lc.st.assume(v.defn(me, lc.i))
         return Y(lc.st, "tab") == v.FLATT(me, lc.i)
 
@@ -1973,7 +2165,7 @@ def _view_contracts(v: ViewSpec, images_only=False):
 
     # ---- iterate_units: concat(u.get_images()) is the same flattening; unit tables are tables of the same element ----
     def unit_inv(lc):
-        me = lc.entry.lookup("self").t
+        me = _self_of(lc.entry)
         lc.st.assume(v.defn(me, lc.i))
         return Conj([("images", Y(lc.st, "img") == v.FLATI(me, lc.i)), ("count", Y(lc.st, "cnt") == lc.i)])
 
@@ -2173,7 +2365,7 @@ def seq_lemmas(repo, tier):
     return {"obligations": out, "functions": []}
 
 
-EXTRA = [_site_runner(i) for i in range(len(SITES))] + [image_sites, sniffers_agree, seq_lemmas, pdf_content_type]
+EXTRA = [_site_runner(i) for i in range(len(SITES))] + [image_sites, sniffers_agree, seq_lemmas, pdf_content_type, rel_type_selection, odf_length]
 
 
 def lemmas():
